@@ -12,49 +12,54 @@ O_CREAT, O_WRONLY, O_RDWR, O_TRUNC = 0o100, 0o1, 0o2, 0o1000
 
 
 def errnos_for(ev):
+    """errno values a POSIX/Linux kernel may legally return for this call (man pages), beyond the common EIO/ENOSPC:
+    quota, read-only, permission, limits.  Values that carry protocol meaning for the caller (ENXIO from
+    SEEK_DATA, ENOSYS/EXDEV from copy_file_range, EOPNOTSUPP from ioctl) are left to the kernel profiles."""
     c = ev["c"]
     if c in ("openat", "open"):
         if ev.get("flags", 0) & (O_CREAT | O_WRONLY | O_RDWR):
-            return ["EACCES", "EMFILE", "ENOSPC", "EROFS", "EIO"]
-        return ["EACCES", "EMFILE", "EIO"]
+            return ["EACCES", "EMFILE", "ENOSPC", "EROFS", "EIO", "EDQUOT", "ENFILE", "EPERM", "ETXTBSY", "ENOMEM"]
+        return ["EACCES", "EMFILE", "EIO", "ENFILE", "ELOOP", "ENOMEM"]
     if c in ("statx", "newfstatat", "stat", "lstat", "fstat"):
-        return ["EACCES", "EIO"]
+        return ["EACCES", "EIO", "ENOMEM", "ELOOP"]
     if c in ("mkdir", "mkdirat"):
-        return ["ENOSPC", "EACCES", "EROFS", "EEXIST"]
+        return ["ENOSPC", "EACCES", "EROFS", "EEXIST", "EDQUOT", "EMLINK", "EPERM", "EIO"]
     if c in ("symlink", "symlinkat"):
-        return ["EEXIST", "EACCES", "ENOSPC"]
+        return ["EEXIST", "EACCES", "ENOSPC", "EDQUOT", "EROFS", "EPERM", "EIO"]
     if c in ("mknod", "mknodat"):
-        return ["EPERM", "EEXIST", "ENOSPC"]
+        return ["EPERM", "EEXIST", "ENOSPC", "EACCES", "EROFS", "EDQUOT"]
     if c in ("rename", "renameat", "renameat2"):
-        return ["EACCES", "ENOSPC", "EIO"]
+        return ["EACCES", "ENOSPC", "EIO", "EPERM", "EBUSY", "EROFS", "EDQUOT"]
     if c in ("unlink", "unlinkat"):
-        return ["EACCES", "EIO"]
+        return ["EACCES", "EIO", "EPERM", "EBUSY", "EROFS"]
     if c == "ftruncate":
-        return ["ENOSPC", "EIO"]
-    if c in ("copy_file_range", "write", "pwrite64"):
-        return ["ENOSPC", "EIO"]
+        return ["ENOSPC", "EIO", "EPERM", "EINVAL", "EFBIG", "EDQUOT"]
+    if c in ("copy_file_range",):
+        return ["ENOSPC", "EIO", "EFBIG", "EDQUOT", "EINVAL", "ENOMEM"]
+    if c in ("write", "pwrite64"):
+        return ["ENOSPC", "EIO", "EFBIG", "EDQUOT", "EPERM"]
     if c == "pread64":
-        return ["EIO"]
+        return ["EIO", "ENOMEM"]
     if c == "read":
-        return ["EIO", "EINTR"]
+        return ["EIO", "EINTR", "ENOMEM"]
     if c == "getdents64":
-        return ["EIO"]
+        return ["EIO", "ENOMEM"]
     if c in ("readlink", "readlinkat"):
-        return ["EACCES", "EIO"]
+        return ["EACCES", "EIO", "ENOMEM"]
     if c == "lseek":
         return ["EIO"]
     if c in ("fchmod", "utimensat"):
-        return ["EPERM", "EIO"]
+        return ["EPERM", "EIO", "EROFS", "EACCES"]
     if c == "fchown":
-        return ["EPERM"]
+        return ["EPERM", "EROFS", "EIO"]
     if c in ("flistxattr", "fgetxattr", "fsetxattr"):
-        return ["ENOTSUP", "EPERM"]
+        return ["ENOTSUP", "EPERM", "ENOSPC", "EDQUOT"]
     if c in ("fsync", "fdatasync"):
-        return ["EIO"]
+        return ["EIO", "ENOSPC", "EDQUOT", "EROFS"]
     if c == "ioctl" and ev.get("req") == "FICLONE":
-        return ["EIO"]
+        return ["EIO", "ENOSPC", "EPERM", "EBADF"]
     if c == "ioctl" and ev.get("req") == "FIEMAP":
-        return ["EIO"]
+        return ["EIO", "EINTR", "ENOMEM"]
     return []
 
 
@@ -161,6 +166,9 @@ class FCheck(SCheck):
         res, verdict, t0 = run_step(sim, case, last, plan, self.log)
         bf = self.evaluate(res, verdict, case, last, t0, plan)
         runs.append(summarize(res, bf, plan, {"nontrivial": False, "baseline": True, "verdict": verdict.kind if verdict else None}))
+        if res["outcome"]["kind"] in ("budget", "deadlock", "spin"):
+            # the fault-free run itself does not terminate: nothing to enumerate faults over
+            return {"runs": runs, "item": item, "case_id": item.get("case_id"), "sample": {"argv": [gen.argv_of(s["inv"]) for s in case["steps"]]}}
         base_keys = set((x.prop, x.cls, x.path) for x in bf)
         events = res.get("events", [])
         nsites = res["stats"]["sites"]
